@@ -15,7 +15,6 @@ structure St where
   slots : Array (Option Nat) := Array.replicate 16 none
   -- C04 (opening book) session: the book built by the last `book`/`realbook` op
   symBook : Option Tak.Book := none
-deriving Inhabited
   bot : Option Tak.Bot.Session := none      -- C07: the bot game of the current `case`
 
 /-- a handler returns `none` when the op is not its own -/
